@@ -1,10 +1,22 @@
 #!/bin/bash
-# run.sh <ID> <tier>: rebuild the harness against /repo's working tree (hooks on) and run one check.
+# run.sh <ID> <tier> [nv flags]: rebuild the harness against /repo's working tree (hooks on) and run one check.
+# VERIF_REPO=<dir> (self-validation only) builds against a scratch copy of the repository instead.
 set -u
 export GOFLAGS=-mod=mod GOPROXY=off GOSUMDB=off GOTOOLCHAIN=local
 here="$(cd "$(dirname "$0")" && pwd)"
-export VERIF_DIR="$here"
+export VERIF_DIR="${VERIF_DIR:-$here}"
 id="$1"; tier="${2:-${VERIF_TIER:-quick}}"; shift; shift || true
-mkdir -p "$here/bin" "$here/evidence" "$here/replays" "$here/work"
-( cd "$here/harness" && cp -f /repo/go.sum go.sum 2>/dev/null; go build -tags verif -o "$here/bin/nv" ./cmd/nv ) || { echo "BUILD FAILED (harness against /repo working tree)"; exit 3; }
-exec "$here/bin/nv" check "$id" -tier "$tier" "$@"
+mkdir -p "$VERIF_DIR/bin" "$VERIF_DIR/evidence" "$VERIF_DIR/replays" "$VERIF_DIR/work"
+bin="$VERIF_DIR/bin/nv"
+if [ -n "${VERIF_REPO:-}" ]; then
+  tag=$(echo "$VERIF_REPO" | md5sum | cut -c1-8)
+  mf="$here/harness/.alt-$tag.mod"
+  sed "s#=> /repo#=> $VERIF_REPO#" "$here/harness/go.mod" > "$mf"
+  cp -f "$here/harness/go.sum" "$here/harness/.alt-$tag.sum" 2>/dev/null
+  bin="$VERIF_DIR/bin/nv-alt-$tag"
+  ( cd "$here/harness" && go build -modfile="$mf" -tags verif -o "$bin" ./cmd/nv ) || { echo "BUILD FAILED (harness against $VERIF_REPO)"; rm -f "$mf" "$here/harness/.alt-$tag.sum"; exit 3; }
+  rm -f "$mf" "$here/harness/.alt-$tag.sum"
+else
+  ( cd "$here/harness" && go build -tags verif -o "$bin" ./cmd/nv ) || { echo "BUILD FAILED (harness against /repo working tree)"; exit 3; }
+fi
+exec "$bin" check "$id" -tier "$tier" "$@"
